@@ -152,7 +152,7 @@ PROPS.update({
                "differential run (every source over an alphabet with ties x 4 comparators x every operation) and the implementation-side sorted-permutation oracle."),
         technique="Lean 4 proof (invariant by induction over histories, one lemma per arm, loop invariants for binary search and the Append loop; kernel-checked counterexample for the known finding) + model/implementation correspondence",
         design_ref="DESIGN.md §6 C11"),
-    "C12": dict(adp_prop(["EyeballVerif.Props.C12", "EyeballVerif.Props.ChainSound", "EyeballVerif.Props.PipeSound", "EyeballVerif.Props.PipeSoundSort", "EyeballVerif.Lemmas.TruncInv"],
+    "C12": dict(adp_prop(["EyeballVerif.Props.C12", "EyeballVerif.Props.ChainSound", "EyeballVerif.Props.PipeSound", "EyeballVerif.Props.PipeSoundSort", "EyeballVerif.Props.PipeSoundU", "EyeballVerif.Lemmas.TruncInv"],
         "pipe_poll_sound + pipeInv_initial: for the batched flavour and static chains of Head/Tail/Skip/Filter stages of any depth, the pipeline invariant (vector invariants VInv + TInv, receiver replica defined, ChainInv for that replica) holds from construction at any reachable state and is preserved by every poll of the real poll loop (pollStages), no stage panics, and an item handed out is a valid container taking the composed view before the poll to the composed view after it (Pending/End leave it unchanged); tinv_run: everything owed to a receiver is a valid container (every Truncate shortens); "
         "chain_sound: for every chain of adapters (any kinds, any depth) whose stages satisfy their invariants and every valid container from the source that brings no Truncate to a Sort stage: no stage panics, the invariants hold "
         "afterwards, and the diffs coming out at the top take the old composed view to the new composed view, strictly, and are again a valid container (induction over the chain; stage_onDiffs_sound per stage; "
@@ -166,7 +166,7 @@ PROPS.update({
                "random chains of up to 3 stages with transparent taps between the stages checked at every quiescent point."),
         technique="Lean 4 proof (induction over the chain, per-stage refinement theorems) + model/implementation correspondence with per-stage taps",
         design_ref="DESIGN.md §6 C12"),
-    "C13": dict(adp_prop(["EyeballVerif.Props.C13", "EyeballVerif.Props.C13Flat"],
+    "C13": dict(adp_prop(["EyeballVerif.Props.C13", "EyeballVerif.Props.C13Flat", "EyeballVerif.Props.PipeSoundU"],
         "c13_no_empty_batch: for chains of any length, any fuel and world, polling never yields an empty batch given the vector never publishes an empty message (pollStages_item principle, induction over "
         "the poll loop); c13_mapDiffs_append / c13_mapDiffs_acc: the Vec container's flat_map over a batch = handling its diffs one after the other"),
         claim=("Lean 4 theorems: no stage, alone or in a chain of any length, ever emits an empty batch (c13_no_empty_batch, by induction over the poll loop of the generic stage skeleton, using that commits "
